@@ -29,7 +29,7 @@ ASSUMPTIONS = [
     "the extra 'detector_<bucket>.<ext>' file that a sequentially executed observation leaves behind for its first run is unreported surplus and is not demanded or forbidden by the statement",
 ]
 COMPONENTS = {"real": ["pyxel outputs (create_output_directory, save_to_files, save_to_file, apply_run_number)", "run_mode for the three modes and the file entry point pyxel.run (filename table, output_filenames.csv)", "dask get_async", "numpy.save / astropy fits.writeto / PIL on a real scratch filesystem"], "stub": ["wall clock (SimDateTime)", "thread pool", "OSError injection wrappers"]}
-BUDGET = {"quick": {"n": 400, "wall": 110, "determinism": 4}, "thorough": {"n": 15000, "wall": 1600, "determinism": 12}}
+BUDGET = {"quick": {"n": 400, "wall": 110, "determinism": 4}, "thorough": {"n": 30000, "wall": 1600, "determinism": 12}}
 REQUIRED_REACH = ["runs_with_identical_parameters", "seeded_observation", "bucket_in_several_entries", "via:file", "kind:exposure", "kind:obs-seq", "kind:obs-par", "same_second_starts", "clock_backwards", "prepopulated_dir", "concurrent_starts", "mkdir_lost_race", "fault:mkdir", "fault:write", "multi_key_mapping", "fmt:fits", "fmt:npy", "fmt:jpg", "resave_collision", "picture_format_before_lossless"]
 
 BUCKETS = ("photon", "pixel", "signal", "image")
